@@ -369,3 +369,18 @@ Proof.
     rewrite (lfold_srun ign _ (SSize [c]) outs _ _ _ ltac:(discriminate) ltac:(discriminate) ltac:(discriminate) Hs).
     rewrite IH by auto. rewrite <- app_assoc. reflexivity.
 Qed.
+
+(* ---- the encoding is self-delimiting: no value's bytes are a prefix of another's ---------- *)
+
+Lemma dump_prefix_free v w t1 t2 : dump v ++ t1 = dump w ++ t2 -> v = w /\ t1 = t2.
+Proof.
+  intros H.
+  pose proof (parse_dump v t1 (Nat.max (weight v) (weight w)) ltac:(lia)) as Hv.
+  pose proof (parse_dump w t2 (Nat.max (weight v) (weight w)) ltac:(lia)) as Hw.
+  rewrite H in Hv. rewrite Hv in Hw. injection Hw as -> ->. split; reflexivity.
+Qed.
+
+Lemma dump_injective v w : dump v = dump w -> v = w.
+Proof.
+  intros H. apply (dump_prefix_free v w [] []). rewrite H. reflexivity.
+Qed.
